@@ -5,15 +5,16 @@ import re
 
 import z3
 
-from symex import (Agg, ArcV, BV, Cell, DynV, EnumV, FV, IV, Inconclusive, Opaque, RefV, SetV, StateV, UnitV, VecV, _PathEnds,
+from symex import (Agg, ArcV, BV, Cell, DynV, EnumV, FP, FV, IV, Inconclusive, Opaque, RefV, SetV, StateV, UnitV, VecV, _PathEnds,
                    copy_value, f_abs, f_eq, f_ite, f_le, f_lt, f_max, f_min, is_true, zs)
 
 
 def strip_generics(s):
-    """Removes `::<...>` turbofish segments (balanced)."""
+    """Removes `::<...>` turbofish segments (balanced). `::<impl f64>::max` style inherent-impl path segments (followed by
+    another `::`) are kept."""
     out, i, n = [], 0, len(s)
     while i < n:
-        if s.startswith('::<', i) and not s.startswith('::<impl ', i):
+        if s.startswith('::<', i):
             depth, j = 0, i + 2
             while j < n:
                 if s[j] == '<':
@@ -23,6 +24,8 @@ def strip_generics(s):
                     if depth == 0:
                         break
                 j += 1
+            if s.startswith('::<impl ', i) and s.startswith('::', j + 1):
+                out.append(s[i:j + 1])
             i = j + 1
         else:
             out.append(s[i])
@@ -98,6 +101,8 @@ def opt_is_some(o):
 
 def default_for(engine, ty):
     t = engine.env.subst_type(ty.strip())
+    if t == 'f64' and getattr(engine.env, 'ieee', False):
+        return FP(0.0)
     if t == 'f64':
         return FV.const(0)
     if t in ('usize', 'u64', 'u32', 'i32', 'i64', 'u8', 'u16', 'i16', 'isize'):
@@ -112,6 +117,8 @@ def default_for(engine, ty):
 
 def ite_value(c, a, b):
     """Merges two values of the same shape under condition c."""
+    if isinstance(a, FP) and isinstance(b, FP):
+        return FP(z3.If(c, a.t, b.t))
     if isinstance(a, FV) and isinstance(b, FV):
         return f_ite(c, a, b)
     if isinstance(a, IV) and isinstance(b, IV):
@@ -348,10 +355,10 @@ def std_trait(engine, st, ty, tyb, tb, method, args, dest_ty):
         return RefV(s, i)
     if tyb == 'f64' and tb in ('Add', 'Sub', 'Mul'):
         return engine.binop(st, tb, args[0], args[1])
-    if tb == 'PartialEq' and method in ('eq', 'ne') and isinstance(deref_all(args[0]), (FV, IV, BV)):
+    if tb == 'PartialEq' and method in ('eq', 'ne') and isinstance(deref_all(args[0]), (FV, FP, IV, BV)):
         r = engine.binop(st, 'Eq', deref_all(args[0]), deref_all(args[1]))
         return r if method == 'eq' else BV(zs(z3.Not(r.t)))
-    if tb == 'PartialOrd' and isinstance(deref_all(args[0]), (FV, IV)) and method in ('lt', 'le', 'gt', 'ge'):
+    if tb == 'PartialOrd' and isinstance(deref_all(args[0]), (FV, FP, IV)) and method in ('lt', 'le', 'gt', 'ge'):
         return engine.binop(st, {'lt': 'Lt', 'le': 'Le', 'gt': 'Gt', 'ge': 'Ge'}[method], deref_all(args[0]), deref_all(args[1]))
     if tb == 'Ord' and method in ('max', 'min') and isinstance(args[0], IV):
         a, b = args
@@ -415,6 +422,41 @@ def iterator_method(engine, st, method, args, dest_ty):
         for x in it.items:
             acc = engine.call_closure(st, holder, [acc, x])
         return acc
+    if method == 'find':
+        clo = args[1]
+        holder = RefV(Cell(clo), 0, True) if not isinstance(clo, RefV) else clo
+        while it.items:
+            x = it.items.pop(0)
+            r = engine.call_closure(st, holder, [RefV(Cell(x), 0)])
+            if engine.split_bool(st, r.t):
+                return mk_option(True, x, ty=dest_ty)
+        return mk_option(False, ty=dest_ty)
+    if method == 'nth':
+        n = args[1].concrete()
+        if n is None:
+            raise Inconclusive('nth(n) with symbolic n')
+        if n >= len(it.items):
+            it.items.clear()
+            return mk_option(False, ty=dest_ty)
+        x = it.items[n]
+        del it.items[:n + 1]
+        return mk_option(True, x, ty=dest_ty)
+    if method == 'try_fold':
+        # R = ControlFlow<B, C>: stops at the first Break
+        acc = args[1]
+        clo = args[2]
+        holder = RefV(Cell(clo), 0, True) if not isinstance(clo, RefV) else clo
+        for x in it.items:
+            r = engine.call_closure(st, holder, [acc, x])
+            if not isinstance(r, EnumV):
+                raise Inconclusive('try_fold closure does not return an enum')
+            v = r.variant()
+            if v is None:
+                v = 0 if engine.split_bool(st, r.discr == 0) else 1
+            if v == 1:
+                return EnumV(dest_ty or 'ControlFlow', 1, {1: [r.payload[1][0]]})
+            acc = r.payload[0][0]
+        return EnumV(dest_ty or 'ControlFlow', 0, {0: [acc]})
     if method == 'for_each':
         clo = args[1]
         holder = RefV(Cell(clo), 0, True) if not isinstance(clo, RefV) else clo
@@ -449,6 +491,42 @@ def std_path(engine, st, name, args, dest_ty):
     segs = name.split('::')
     last = segs[-1]
     # ---- f64 intrinsics: `core::f64::<impl f64>::max`
+    if '<impl f64>' in name and isinstance(deref_all(args[0]), FP):
+        import symex as _sx
+        x = deref_all(args[0]).t
+        y = deref_all(args[1]).t if len(args) > 1 and isinstance(deref_all(args[1]), FP) else None
+        F64 = _sx.F64
+        if last == 'max':
+            # Rust: NaN is ignored; the sign of a zero result is unspecified (z3 fpMax models exactly that)
+            return FP(z3.If(z3.fpIsNaN(x), y, z3.If(z3.fpIsNaN(y), x, z3.fpMax(x, y))))
+        if last == 'min':
+            return FP(z3.If(z3.fpIsNaN(x), y, z3.If(z3.fpIsNaN(y), x, z3.fpMin(x, y))))
+        if last == 'abs':
+            return FP(z3.fpAbs(x))
+        if last == 'sqrt':
+            return FP(z3.fpSqrt(_sx.RNE, x))
+        if last == 'powi':
+            n = args[1].concrete()
+            if n == 2:
+                return FP(z3.fpMul(_sx.RNE, x, x))
+            raise Inconclusive(f'powi with exponent {n}')
+        if last == 'total_cmp':
+            kx, ky = _sx.fp_total_key(x), _sx.fp_total_key(y)
+            return EnumV('Ordering', zs(z3.If(kx < ky, -1, z3.If(kx == ky, 0, 1))), {})
+        if last == 'is_nan':
+            return BV(zs(z3.fpIsNaN(x)))
+        if last == 'is_infinite':
+            return BV(zs(z3.fpIsInf(x)))
+        if last == 'is_finite':
+            return BV(zs(z3.And(z3.Not(z3.fpIsNaN(x)), z3.Not(z3.fpIsInf(x)))))
+        if last == 'round':
+            return FP(z3.fpRoundToIntegral(z3.RNA(), x))
+        if last == 'clamp':
+            lo, hi = deref_all(args[1]).t, deref_all(args[2]).t
+            return FP(z3.If(z3.fpLT(x, lo), lo, z3.If(z3.fpGT(x, hi), hi, x)))
+        if last == 'is_sign_negative':
+            return BV(zs(z3.fpIsNegative(x)))
+        raise Inconclusive(f'f64::{last} has no IEEE model here')
     if '<impl f64>' in name:
         a = args[0]
         if last == 'max':
@@ -618,6 +696,8 @@ def seq_method(engine, st, method, args, dest_ty):
     if method == 'with_capacity':
         return VecV([])
     s = seq_of(args[0])
+    if method in ('as_slice', 'as_mut_slice'):
+        return args[0]
     if method == 'push':
         s.items.append(args[1])
         return UnitV()
